@@ -90,6 +90,7 @@ type calcOp struct {
 	twice  bool
 	found  bool
 	reuse  bool // pooled buffer: this call reuses the previous call's backing array (same offsets, same length, other bytes)
+	shared bool // the buffer object is shared with another task's concurrent Calc (read-only by contract)
 }
 
 // callCalc invokes svc.Calc(buf) by reflection, so that the harness does not pin the services'
@@ -217,6 +218,22 @@ func runC14(c *RunCtx) {
 			plans[ti] = append(plans[ti], op)
 		}
 	}
+	// two callers may hand the SAME buffer object to Calc at the same time: Calc is documented
+	// not to touch it, so sharing it read-only is legitimate
+	var sharedBuf *bytes.Buffer
+	var sharedData []byte
+	if ntasks >= 2 && t.Intn(6) == 0 {
+		sharedData, _ = genData()
+		if len(sharedData) > 1<<16 {
+			sharedData = sharedData[:1<<16]
+		}
+		sharedBuf = bytes.NewBuffer(append([]byte(nil), sharedData...))
+		for ti := 0; ti < 2; ti++ {
+			op := &calcOp{algo: t.Intn(len(sumAlgos)), data: sharedData, desc: fmt.Sprintf("one buffer object shared read-only by two callers (%d bytes)", len(sharedData)), shared: true}
+			plans[ti] = append(plans[ti], op)
+		}
+		c.Probe("buffer-shared-by-two-callers")
+	}
 	sp, sdesc := drawSchedPlan(t)
 	c.Logf("%d tasks; scheduler: %s", ntasks, sdesc)
 	const marker = 0x5A
@@ -229,6 +246,15 @@ func runC14(c *RunCtx) {
 				svc, found := codec.Get(sumAlgos[op.algo].Name)
 				op.found = found
 				if !found {
+					continue
+				}
+				if op.shared {
+					func() {
+						defer func() { op.panicv = recover() }()
+						op.got, op.kindOK = callCalc(svc, sharedBuf)
+						op.again = -1 << 62
+					}()
+					op.lenOK, op.same, op.arrOK = true, true, true // judged after both callers are done
 					continue
 				}
 				n := op.lead + len(op.data)
@@ -300,6 +326,13 @@ func runC14(c *RunCtx) {
 	if blown {
 		c.Fail("C14/no-progress", "", "Calc calls did not finish within the step budget")
 		return
+	}
+	if sharedBuf != nil {
+		c.Oracle("shared-buffer-untouched")
+		if sharedBuf.Len() != len(sharedData) || !bytes.Equal(sharedBuf.Bytes(), sharedData) {
+			c.Fail("C14/modified", "shared", "a buffer handed to two concurrent Calc calls was changed by them (unread: %d bytes, was %d)", sharedBuf.Len(), len(sharedData))
+			return
+		}
 	}
 	for ti, ops := range plans {
 		for j, op := range ops {
